@@ -205,6 +205,9 @@ def ft_range_post(self, left, right, result, OLD):
     return True
 
 
+MAX_N = 128
+
+
 class ContractBroken(Exception):
     pass
 
@@ -218,6 +221,14 @@ def _safe(fn):
     @functools.wraps(fn)
     def guarded(*a, **k):
         try:
+            obj = k.get("self", a[0] if a else None)
+            # the conditions cost O(n) .. O(n * height) per call: only structures of up to MAX_N elements are watched
+            # (large instances are judged at the boundary alone)
+            size = getattr(obj, "_parent", None)
+            if size is None:
+                size = getattr(obj, "_tree", ())
+            if len(size) > MAX_N:
+                return True
             return fn(*a, **k)
         except Exception:
             _tick("monitor.error." + fn.__name__)
